@@ -151,6 +151,7 @@ def execute(case: dict) -> dict:
     import aiohttp.connector as connector_mod
 
     loop = new_loop()
+    loop.max_iters = 300000  # cases are small: a busy loop is reported after 3e5 iterations, not 3e6
     stats = {"misbehaviour": 0, "same_key_pairs": 0, "requests": 0, "reused": 0}
     saved_mono = connector_mod.monotonic
     connector_mod.monotonic = loop.time  # keep-alive age under virtual time
